@@ -171,23 +171,6 @@ def _import_file(
         If not None, req will be marked as complete if the import isn't skipped.
     """
 
-    # Skip non-files
-    fullpath = pathlib.Path(node.db.root).joinpath(path)
-    if fullpath.is_symlink() or not fullpath.is_file():
-        log.info(f'Not importing "{path}": not a file.')
-        import_request_done(req, "invalid")
-        return
-
-    # Skip files reached through a symlinked directory which leads out of the
-    # node: they are not on this node, and deleting the "copy" later would
-    # delete a file outside node.root
-    try:
-        fullpath.resolve().relative_to(pathlib.Path(node.db.root).resolve())
-    except (OSError, ValueError):
-        log.info(f'Not importing "{path}": not located under the node root.')
-        import_request_done(req, "invalid")
-        return
-
     log.debug(f'Considering "{path}" for import to node {node.name}.')
 
     # Skip files with a leading dot
@@ -196,8 +179,31 @@ def _import_file(
         import_request_done(req, "bad_name")
         return
 
-    # Wait for file to become ready
-    while not node.io.ready_path(path):
+    fullpath = pathlib.Path(node.db.root).joinpath(path)
+    while True:
+        # These checks are repeated every time the task resumes after waiting
+        # for the file to become ready: the file may have been removed or
+        # replaced in the meantime.
+
+        # Skip non-files
+        if fullpath.is_symlink() or not fullpath.is_file():
+            log.info(f'Not importing "{path}": not a file.')
+            import_request_done(req, "invalid")
+            return
+
+        # Skip files reached through a symlinked directory which leads out of the
+        # node: they are not on this node, and deleting the "copy" later would
+        # delete a file outside node.root
+        try:
+            fullpath.resolve().relative_to(pathlib.Path(node.db.root).resolve())
+        except (OSError, ValueError):
+            log.info(f'Not importing "{path}": not located under the node root.')
+            import_request_done(req, "invalid")
+            return
+
+        # Wait for file to become ready
+        if node.io.ready_path(path):
+            break
         log.info(
             f'Path "{path}" not ready for I/O during import.  Waiting 600 seconds.'
         )
